@@ -113,14 +113,90 @@ def op_may_commit_without_results(op):
 
 
 _BASE = [None]
+_REAL_GETPID = os.getpid
+_REAL_KILL = os.kill
+FAKE_PID_BASE = 4_200_000          # above pid_max: never a real process
+_VPID = {'current': None,          # callable -> virtual pid of the caller, or None (real pid)
+         'alive': set()}
+
+
+def _sim_getpid():
+    f = _VPID['current']
+    v = f() if f is not None else None
+    return _REAL_GETPID() if v is None else FAKE_PID_BASE + v
+
+
+def _sim_kill(pid, sig):
+    """os.kill for virtual pids: signal 0 probes whether the virtual process is alive."""
+    if isinstance(pid, int) and pid >= FAKE_PID_BASE and _VPID['current'] is not None:
+        import errno
+        if (pid - FAKE_PID_BASE) in _VPID['alive']:
+            if sig == 0:
+                return None
+            raise PermissionError(errno.EPERM, 'Operation not permitted')
+        raise ProcessLookupError(errno.ESRCH, 'No such process')
+    return _REAL_KILL(pid, sig)
+
+
+class virtual_process:
+    """`with virtual_process(pid, alive)`: code inside sees os.getpid() == FAKE_PID_BASE + pid
+    and can probe the virtual processes in `alive` with os.kill(pid, 0) (everything else: as the
+    real calls).  `pid` may be a callable (in-situ mode: the pid of the calling vthread)."""
+
+    def __init__(self, pid, alive):
+        self.pid = pid
+        self.alive = alive
+
+    def __enter__(self):
+        self.saved = (_VPID['current'], _VPID['alive'], os.getpid, os.kill)
+        _VPID['current'] = self.pid if callable(self.pid) else (lambda: self.pid)
+        _VPID['alive'] = self.alive
+        os.getpid, os.kill = _sim_getpid, _sim_kill
+        return self
+
+    def __exit__(self, *a):
+        _VPID['current'], _VPID['alive'], os.getpid, os.kill = self.saved
+
+
+_PRIV_CODE = {}
+
+
+def private_modules(path_lock=None):
+    """Fresh instances of the two modules whose module-level state belongs to ONE operating
+    system process (workflows.model_database.local_directory, workflows.contexts.
+    local_directory): a virtual process, and every restart, gets its own - as a real process
+    would - so that state kept in module globals is not shared between "processes".
+    Returns (LocalDirectoryContext class, database module, context module)."""
+    import importlib.util
+    import types
+    out = []
+    for name in ('pharmpy.workflows.model_database.local_directory',
+                 'pharmpy.workflows.contexts.local_directory'):
+        code = _PRIV_CODE.get(name)
+        if code is None:
+            spec = importlib.util.find_spec(name)
+            with simfs._orig['open'](spec.origin, 'rb') as fh:
+                code = (compile(fh.read(), spec.origin, 'exec'), spec.origin)
+            _PRIV_CODE[name] = code
+        mod = types.ModuleType(name)
+        mod.__file__ = code[1]
+        mod.__package__ = name.rpartition('.')[0]
+        exec(code[0], mod.__dict__)
+        out.append(mod)
+    dbm, cxm = out
+    cxm.LocalModelDirectoryDatabase = dbm.LocalModelDirectoryDatabase
+    if path_lock is not None:
+        dbm.path_lock = path_lock
+        cxm.path_lock = path_lock
+    return cxm.LocalDirectoryContext, dbm, cxm
 
 
 def scratch_root():
     """Per-process scratch directory below one per-invocation directory that the
     parent removes at the end (fixed-width names: path lengths never vary)."""
     if _BASE[0] is None:
-        _BASE[0] = f'/dev/shm/verif-c16-{os.getpid():07d}'
-    d = os.path.join(_BASE[0], f'w{os.getpid():07d}')
+        _BASE[0] = f'/dev/shm/verif-c16-{_REAL_GETPID():07d}'
+    d = os.path.join(_BASE[0], f'w{_REAL_GETPID():07d}')
     os.makedirs(d, exist_ok=True)
     return d
 
@@ -140,7 +216,7 @@ def remove_stale_scratch():
             pid = int(d.rsplit('-', 1)[1])
         except ValueError:
             continue
-        if pid != os.getpid() and not os.path.exists(f'/proc/{pid}'):
+        if pid != _REAL_GETPID() and not os.path.exists(f'/proc/{pid}'):
             shutil.rmtree(d, ignore_errors=True)
 
 
@@ -715,7 +791,9 @@ def content_problem(me, key, acceptable):
 
 def acceptable_results(ref, infl, key, acked):
     acc = set(infl.result_jsons.get(key, set()))
-    if acked:
+    if acked or ref.res_writes.get(key):
+        # (results can be acknowledged for a key that is not committed yet: NONMEM output files
+        # stored next to a model that is only stored afterwards)
         acc |= ref.results_candidates(key)
     elif not acc:
         acc = {None}
@@ -773,9 +851,20 @@ class Infl:
 def check_state(root, ref, inflight, V, where, wl_models, do_progress=True):
     """Reopen the directory with fresh objects and check R1-R4.  `inflight` is one
     operation, a list of operations, or None."""
-    Ctx = _P['Ctx']
     ModelHash = _P['ModelHash']
     infl = Infl(inflight if isinstance(inflight, list) else [inflight])
+    # the restart is a NEW process: fresh module state, a pid of its own, and every process
+    # that took part in the history is dead by now
+    Ctx, _dbm, _cxm = private_modules()
+    with virtual_process(_RESTART_PID, {_RESTART_PID}):
+        _check_state(Ctx, root, ref, infl, V, where, wl_models, do_progress)
+
+
+_RESTART_PID = 900
+
+
+def _check_state(Ctx, root, ref, infl, V, where, wl_models, do_progress):
+    ModelHash = _P['ModelHash']
     try:
         ctx = quiet(Ctx('ctx', ref=root))
     except Exception as ex:
@@ -1096,6 +1185,43 @@ def check_state(root, ref, inflight, V, where, wl_models, do_progress=True):
                        f'{where}: {e["name"]} stored after the crash: {prob}')
             else:
                 V.count('r4.progress_ok')
+        # ---- R6 retry: the user repeats the interrupted stores.  Each retry may be refused
+        # (PENDING left behind: by design) - but if it is ACCEPTED the entry must afterwards be
+        # complete, never the half-written files of the interrupted attempt published as they are
+        retried = set()
+        for op in infl.ops:
+            if op['kind'] not in KEY_COMMITTERS or op.get('sub'):
+                continue
+            e = POOL[op['model']]
+            if (op['kind'], e['idx']) in retried:
+                continue
+            retried.add((op['kind'], e['idx']))
+            if op['kind'] in BINDERS:
+                nm = store_name(op)
+                if name_conflict(ref2, op) or any(k_ != e['key'] for n_, k_ in infl.names.items() if n_ == nm) or \
+                        sum(1 for o in infl.ops if o['kind'] in BINDERS and store_name(o) == nm and
+                            POOL[o['model']]['key'] != e['key']):
+                    continue
+            try:
+                do_op(ctx, op, os.path.join(scratch_root(), 'local.lst'))
+            except Exception:
+                V.count('r6.retry_refused')
+                continue
+            apply_ack(ref2, op)
+            try:
+                me = db.retrieve_model_entry(ModelHash(e['key']))
+                prob = content_problem(me, e['key'], acceptable_results(ref2, infl, e['key'], True))
+                if prob is None and op['kind'] in BINDERS:
+                    c_, plain = cx(store_name(op))
+                    me = c_.retrieve_model_entry(plain)
+                    prob = content_problem(me, e['key'], acceptable_results(ref2, infl, e['key'], True))
+            except Exception as ex:
+                prob = f'raises {ex!r}'
+            if prob is not None:
+                V.viol('retried-store-publishes-partial-entry',
+                       f'{where}: the interrupted {fmt_op(op)} was repeated and accepted, but then {prob}')
+            else:
+                V.count('r6.retry_accepted_complete')
 
 
 def check_log_levels(ctx, V, where, infl):
@@ -1287,8 +1413,9 @@ def run_excpoints(cfg, tape, want_trace=False):
         ref = Ref()
         failed = []
         nonlocal harness
-        with fs:
-            ctx = quiet(_P['Ctx']('ctx', ref=root, common_options=COMMON_OPTIONS))
+        Ctx1 = private_modules()[0]
+        with fs, virtual_process(1, {1}):
+            ctx = quiet(Ctx1('ctx', ref=root, common_options=COMMON_OPTIONS))
             k0 = fs.nops
             maybe = {}      # name -> key that a failed store may have bound
             for op in wl['ops']:
@@ -1398,7 +1525,7 @@ def run_scale(cfg, tape, want_trace=False):
     seq = order[:]
     for x in extra:
         seq.insert(tape.draw(len(seq) + 1, 'scale.pos'), x)
-    ctx = quiet(_P['Ctx']('ctx', ref=root, common_options=COMMON_OPTIONS))
+    ctx = quiet(private_modules()[0]('ctx', ref=root, common_options=COMMON_OPTIONS))
     done = []
     for idx in seq:
         op = {'kind': 'store', 'model': idx}
@@ -1479,8 +1606,9 @@ def run_journal(cfg, tape, want_trace=False):
     spans = []          # (op, start, end, acked, ref_after)
     executed = []
     harness = None
-    with fs:
-        ctx = quiet(_P['Ctx']('ctx', ref=root, common_options=COMMON_OPTIONS))
+    Ctx1 = private_modules()[0]
+    with fs, virtual_process(1, {1}):
+        ctx = quiet(Ctx1('ctx', ref=root, common_options=COMMON_OPTIONS))
         k0 = len(fs.journal)
         for op in wl['ops']:
             if name_conflict(ref, op):
